@@ -880,6 +880,12 @@ pub fn f9_decorate(rng: &mut Rng, mut def: Def) -> Def {
             continue;
         }
         any = true;
+        if rng.chance(1, 12) {
+            // the library's own helper `logos::skip` as the callback of a unit variant
+            def.pats[i].cb = Some(Cb { ret: CbRet::SkipAlways, inline: false, bump: false, salt: BUILTIN_SKIP, target: def.pats[i].variant });
+            def.pats[i].cb_positional = rng.chance(1, 2);
+            continue;
+        }
         let value = rng.chance(2, 5);
         let ret = if value { *rng.pick(CB_VAL_KINDS) } else { *rng.pick(CB_UNIT_KINDS) };
         let v = def.pats[i].variant;
